@@ -344,7 +344,7 @@ package zerolog
 //@ typeinv encoding/json.RawMessage wholevalue
 
 //@ func appendFields(dst, fields, stack) res
-//@   props C01 C02
+//@   props C01
 //@   arith int
 //@   flag noovf
 //@   flag replay fields
@@ -356,7 +356,7 @@ package zerolog
 //@     invariant objbuf(dst) && stk(dst) == stk(dst0) && prefix(dst, dst0) && (same(dst, dst0) || (mode(dst) == OBJ_NEXT && len(dst) > len(dst0)))
 
 //@ func appendFieldList(dst, kvList, stack) res
-//@   props C01 C02
+//@   props C01
 //@   arith int
 //@   flag noovf
 //@   flag replay fields
